@@ -32,6 +32,17 @@ fn lit_meta(w: &mut ZW) {
     rec(w, "lit_meta()".into());
 }
 
+// the same attribute on two functions (copy-paste): both are registered, the step is ambiguous
+#[given("twice defined")]
+fn twice_a(w: &mut ZW) {
+    rec(w, "twice_a()".into());
+}
+
+#[given("twice defined")]
+async fn twice_b(w: &mut ZW) {
+    rec(w, "twice_b()".into());
+}
+
 // the regex metacharacters `lit_meta` does not have
 #[when("yes|no + maybe? {d} ^e\\f # & g-h ~ ok")]
 fn lit_meta2(w: &mut ZW) {
@@ -252,6 +263,8 @@ pub fn entries() -> Vec<Entry> {
         Entry { func: "lit_given", kw: Given, re: r"^a literal step$", expect: |_, _| Some("lit_given()".into()), templates: &["a literal step"] },
         Entry { func: "lit_when", kw: When, re: r"^a literal step$", expect: |_, _| Some("lit_when()".into()), templates: &["a literal step"] },
         Entry { func: "lit_meta", kw: Then, re: r"^price is \$5\.00 \(approx\.\) \[x\]\*$", expect: |_, _| Some("lit_meta()".into()), templates: &["price is $5.00 (approx.) [x]*"] },
+        Entry { func: "twice_a", kw: Given, re: r"^twice defined$", expect: |_, _| Some("twice_a()".into()), templates: &["twice defined"] },
+        Entry { func: "twice_b", kw: Given, re: r"^twice defined$", expect: |_, _| Some("twice_b()".into()), templates: &["twice defined"] },
         Entry { func: "lit_meta2", kw: When, re: r"^yes\|no \+ maybe\? \{d\} \^e\\f # & g-h ~ ok$", expect: |_, _| Some("lit_meta2()".into()), templates: &["yes|no + maybe? {d} ^e\\f # & g-h ~ ok"] },
         Entry { func: "lit_unicode", kw: Then, re: r"^naïve café ☕$", expect: |_, _| Some("lit_unicode()".into()), templates: &["naïve café ☕"] },
         Entry { func: "apples", kw: Given, re: r"^(\d+) apples$", expect: |c, _| g(c, 1).parse::<u32>().ok().map(|n| format!("apples({n})")), templates: &["{n} apples"] },
